@@ -10,6 +10,7 @@ O9  the and-over-xor distribution of push_and looks up (other operand & input 0 
 O10 the and-factoring rewrite of push_xor: four complete input pairings; under a1 == b1 the gate is And(a1, Xor(a2, b2))
 O8  the dead-gate sweep has all roots (outputs, every field of the panic record) and follows every operand of every gate kind
 O6  `negated` records exactly (operand, new gate) and (new gate, operand) under the `== 1` test of the other operand
+O11 cross-reference: the merge of panic records has no wire-identity shortcut (C02-P5); such a shortcut differs between de-duplication on / off
 """
 from .. import mir
 from ..core import AnchorMissing, Finding, RuleResult
@@ -757,5 +758,21 @@ def rule_o10(ctx):
     return res
 
 
+def _xref(res, rule, other):
+    for x in other.findings:
+        res.bad(Finding(rule, x.fn, x.site, x.message, x.span))
+    return not other.findings
+
+
+def rule_o11(ctx):
+    """Cross-reference: the merge of two panic records never depends on wire identity (C02-P5) - with de-duplication on, wires coincide
+    that are distinct gates with it off, so an identity shortcut makes the two configurations compute different outputs."""
+    from . import C02
+    res = RuleResult("O11", "panic records are merged field by field on every path, whatever wires coincide (cross-reference to C02-P5)")
+    if _xref(res, "O11", C02.rule_p5(ctx)):
+        res.ok({"verdict": "C02-P5 holds: mux_uncached_panic has no shortcut around the per-field merge"})
+    return res
+
+
 def run(ctx):
-    return ctx.run_rules([rule_o1, rule_o2, rule_o3, rule_o4, rule_o5, rule_o6, rule_o7, rule_o8, rule_o9, rule_o10])
+    return ctx.run_rules([rule_o1, rule_o2, rule_o3, rule_o4, rule_o5, rule_o6, rule_o7, rule_o8, rule_o9, rule_o10, rule_o11])
